@@ -140,6 +140,10 @@ func Workload(st *Store) []Step {
 			ud(RC, pb.State{Term: 1, Vote: 3, Commit: 1}, ents(RC, 1, 2, 1), none)}},
 		{Kind: "save", Label: "save#4b(C vote-only term 2)", Worker: 3, Updates: []pb.Update{
 			ud(RC, pb.State{Term: 2, Vote: 1, Commit: 1}, nil, none)}},
+		{Kind: "save", Label: "save#4c(C term 3 learned, no vote yet)", Worker: 3, Updates: []pb.Update{
+			ud(RC, pb.State{Term: 3, Vote: 0, Commit: 1}, nil, none)}},
+		{Kind: "save", Label: "save#4d(C vote-only within term 3)", Worker: 3, Updates: []pb.Update{
+			ud(RC, pb.State{Term: 3, Vote: 2, Commit: 1}, nil, none)}},
 		{Kind: "snapshots", Label: "savesnapshots(A@4)", Updates: []pb.Update{
 			ud(RA, pb.State{}, nil, snap(RA, 4, 1))}},
 		{Kind: "remove", Label: "removeentriesto(A,4)", Rep: RA, Index: 4},
